@@ -1344,6 +1344,7 @@ func c09Merge(w *World, r *Result, rule string) {
 	c09Accumulate(w, r, rule)
 	c09AddIfAbsent(w, r, rule)
 	c09FilterFlag(w, r, rule)
+	c09MergeComplete(w, r, rule)
 }
 
 // c09FilterFlag: where a loop keeps or drops each element of a list depending on a flag
@@ -2350,5 +2351,163 @@ func c07HeaderOrder(w *World, cf *ctxFacts, r *Result, rule string) {
 	}
 	if n == 0 {
 		r.Bad(rule, "header:none", "-", "no construct declaring variables of its own found")
+	}
+}
+
+// c09MergeComplete: where a parser takes over the call edges of the parser it created for an
+// imported file, it visits every key of that parser's call-edge map, and for every key
+// either stores the entry under the same key or walks the entry's elements (to add the
+// missing ones): no key is filtered out, and the map is not copied wholesale (which would
+// replace the entry of a key both parsers have, e.g. the top-level key).
+func c09MergeComplete(w *World, r *Result, rule string) {
+	n := 0
+	for _, fn := range w.Funcs("parser") {
+		// parsers created here
+		for _, b := range fn.Blocks {
+			for _, ins := range b.Instrs {
+				mk, ok := ins.(*ssa.Call)
+				if !ok {
+					continue
+				}
+				callee := mk.Call.StaticCallee()
+				if callee == nil || pkgOf(callee) != w.Pkgs["parser"].Types || callee.Signature.Results().Len() != 1 || len(fn.Params) == 0 {
+					continue
+				}
+				if callee.Signature.Recv() != nil {
+					continue
+				}
+				recvPtr, ok := fn.Params[0].Type().Underlying().(*types.Pointer)
+				if !ok {
+					continue
+				}
+				// the created parser: a pointer result, or a value stored into a local variable
+				var anchor ssa.Value
+				resT := callee.Signature.Results().At(0).Type()
+				switch {
+				case types.Identical(resT, fn.Params[0].Type()):
+					anchor = mk
+				case types.Identical(resT, recvPtr.Elem()):
+					for _, ref := range *mk.Referrers() {
+						if st, ok := ref.(*ssa.Store); ok && st.Val == mk {
+							anchor = st.Addr
+						}
+					}
+				}
+				if anchor == nil {
+					continue
+				}
+				st, ok := recvPtr.Elem().Underlying().(*types.Struct)
+				if !ok {
+					continue
+				}
+				for fi := 0; fi < st.NumFields(); fi++ {
+					mt, ok := st.Field(fi).Type().Underlying().(*types.Map)
+					if !ok || !isString(mt.Key()) {
+						continue
+					}
+					if sl, ok := mt.Elem().Underlying().(*types.Slice); !ok || !isString(sl.Elem()) {
+						continue
+					}
+					n++
+					key := fmt.Sprintf("mergeall:%s:%s", FuncName(fn), st.Field(fi).Name())
+					pos := w.Pos(mk.Pos())
+					// wholesale copies into the receiver's map
+					whole := ""
+					var rng *ssa.Range
+					for _, b2 := range fn.Blocks {
+						for _, i2 := range b2.Instrs {
+							switch x := i2.(type) {
+							case *ssa.Call:
+								if c2 := x.Call.StaticCallee(); c2 != nil && (strings.HasPrefix(c2.String(), "maps.Copy") || strings.HasPrefix(c2.String(), "maps.Insert")) {
+									for _, a := range x.Call.Args {
+										if u, ok := a.(*ssa.UnOp); ok {
+											if fa, ok := u.X.(*ssa.FieldAddr); ok && fa.Field == fi && fa.X != anchor {
+												whole = c2.Name() + " at " + w.Pos(x.Pos())
+											}
+										}
+									}
+								}
+							case *ssa.Range:
+								if u, ok := x.X.(*ssa.UnOp); ok {
+									if fa, ok := u.X.(*ssa.FieldAddr); ok && fa.Field == fi && fa.X == anchor {
+										rng = x
+									}
+								}
+							}
+						}
+					}
+					if whole != "" {
+						r.Bad(rule, key, pos, "the call edges of the imported file are copied wholesale ("+whole+"): the entry of a key both parsers have (the top-level key \"\") is replaced instead of merged, so calls made by the top-level code of an earlier import are forgotten and their functions removed as unused")
+						continue
+					}
+					if rng == nil {
+						r.Bad(rule, key, pos, "the call edges recorded by the parser of the imported file are never taken over")
+						continue
+					}
+					// the loop: header = block of the Next instruction
+					var next *ssa.Next
+					for _, ref := range *rng.Referrers() {
+						if nx, ok := ref.(*ssa.Next); ok {
+							next = nx
+						}
+					}
+					if next == nil {
+						r.Bad(rule, key, pos, "cannot follow the iteration over the imported call edges")
+						continue
+					}
+					hdr := next.Block()
+					body := loopBody(hdr)
+					var keyVal, elemVal ssa.Value
+					for _, ref := range *next.Referrers() {
+						if ex, ok := ref.(*ssa.Extract); ok {
+							if ex.Index == 1 {
+								keyVal = ex
+							}
+							if ex.Index == 2 {
+								elemVal = ex
+							}
+						}
+					}
+					cut := map[[2]*ssa.BasicBlock]bool{}
+					for blk := range body {
+						handled := false
+						for _, i2 := range blk.Instrs {
+							switch x := i2.(type) {
+							case *ssa.MapUpdate:
+								if u, ok := x.Map.(*ssa.UnOp); ok {
+									if fa, ok := u.X.(*ssa.FieldAddr); ok && fa.Field == fi && fa.X != anchor && x.Key == keyVal {
+										handled = true
+									}
+								}
+							case *ssa.Call:
+								// the entry's elements are walked (range over the slice: len(elem) in the inner header)
+								if bi, ok := x.Call.Value.(*ssa.Builtin); ok && bi.Name() == "len" && len(x.Call.Args) == 1 && x.Call.Args[0] == elemVal && elemVal != nil {
+									handled = true
+								}
+							}
+						}
+						for _, sc := range blk.Succs {
+							if handled || !body[sc] {
+								cut[[2]*ssa.BasicBlock{blk, sc}] = true
+							}
+						}
+					}
+					skipped := false
+					for _, sc := range hdr.Succs {
+						if body[sc] && sc != hdr && !cut[[2]*ssa.BasicBlock{hdr, sc}] && reachableFromWithout(sc, cut, hdr) {
+							skipped = true
+						}
+					}
+					if skipped {
+						r.Bad(rule, key, pos, "some keys of the imported file's call edges are passed over (a path through the merge loop neither stores the entry nor walks its elements): edges of files imported by the imported file never reach the root, and functions they lead to are removed as unused")
+					} else {
+						r.Ok(rule, key, pos, "every key of the imported parser's call edges is stored or merged element by element under the same key")
+					}
+				}
+			}
+		}
+	}
+	if n == 0 {
+		r.Bad(rule, "mergeall:none", "-", "no place found where a parser for an imported file is created")
 	}
 }
